@@ -32,7 +32,7 @@ class Clock:
                                      date=datetime.date, time=datetime.time)
 
 
-def run_cli(argv, t, tz, order_key, hook=None):
+def run_cli(argv, t, tz, order_key, hook=None, frac=0.0):
     """run the CLI in-process; the clock starts at t and advances 2 s per call and 2 s per file processed"""
     import logging
     import gemato.cli as gc
@@ -41,7 +41,7 @@ def run_cli(argv, t, tz, order_key, hook=None):
     os.environ['TZ'] = tz
     time.tzset()
     saved_dt = gc.datetime
-    clock = Clock(t)
+    clock = Clock(t + frac)       # the wall clock is not on a whole second when the scan starts
     gc.datetime = clock.shim()
     saved_upd = rl.update_entry_for_path
     count = [0]
@@ -274,12 +274,13 @@ def c11(ctx):
                         inject = [victim, at]
                         stats['midscan_injections'] += 1
                     fd0 = ET.fd_count()
-                    ra = run_cli(['update', '-i', '-H', ' '.join(hashes), a], t_now, tz, key, mk_hook(a) if inject else None)
+                    frac = r.choice([0.0, 0.25, 0.5, 0.75, 0.999])
+                    ra = run_cli(['update', '-i', '-H', ' '.join(hashes), a], t_now, tz, key, mk_hook(a) if inject else None, frac)
                     if ET.fd_count() > fd0:
                         stats['descriptor_leaks'] = stats.get('descriptor_leaks', 0) + 1
                         ctx.violation('spec', f'update --incremental leaves {ET.fd_count() - fd0} file descriptors open (one per skipped file: EMFILE on large trees, '
                                       'where the full update succeeds)', {'tz': tz, 'hashes': hashes, 'history': history})
-                    rb = run_cli(['update', '-H', ' '.join(hashes), b], t_now, tz, key, mk_hook(b) if inject else None)
+                    rb = run_cli(['update', '-H', ' '.join(hashes), b], t_now, tz, key, mk_hook(b) if inject else None, frac)
                     la, lb = listing(a), listing(b)
                     if inject and done:
                         injected = [victim]
@@ -299,9 +300,9 @@ def c11(ctx):
                                 ts = datetime.datetime.strptime(g.decode(), 'TIMESTAMP %Y-%m-%dT%H:%M:%SZ').replace(tzinfo=datetime.timezone.utc).timestamp()
                             except ValueError:
                                 ts = None
-                            if ts is None or ts > t_now:
+                            if ts is None or ts > t_now + frac:
                                 ctx.violation('spec', f'{which} update: TIMESTAMP {g} is later than the start of the scan '
-                                              f'({datetime.datetime.utcfromtimestamp(t_now).isoformat()}Z), TZ={tz}', replay)
+                                              f'({datetime.datetime.utcfromtimestamp(t_now + frac).isoformat()}Z), TZ={tz}', replay)
                             elif ts == t_now:
                                 stats['timestamp_is_scan_start'] = stats.get('timestamp_is_scan_start', 0) + 1
                     if ok and comparable:
